@@ -225,6 +225,85 @@ def _pass_in_child(arg):
 
 _N = None
 
+SHARED_SRC = '''
+import functools
+from vf.values import render as _r
+
+
+def f(a, b, k=3):
+    return ("f", _r(a), _r(b), _r(k))
+
+
+def g(a, b, k=3):
+    return ("g", _r(a), _r(b), _r(k))
+
+
+class Obj:
+    def __init__(self, v):
+        self.v = v
+
+    def m(self, x):
+        return ("m", self.v, _r(x))
+
+    def __call__(self, x):
+        return ("call", self.v, _r(x))
+'''
+
+
+def shared_directory(ctx):
+    """Several callables cached in ONE directory, called alternately with equal arguments:
+    partials of one function with different bound values, partials of two functions, bound methods
+    and callable instances of objects with different state."""
+    import functools
+    import joblib
+    import joblib.memory as M
+    import logging
+    logging.disable(logging.CRITICAL)
+    d = core.scratch_dir("c02shared")
+    with open(os.path.join(d, "vf_c02_shared.py"), "w") as fh:
+        fh.write(SHARED_SRC)
+    mod = memgen.load_module(os.path.join(d, "vf_c02_shared.py"), "vf_c02_shared")
+    groups = {
+        "partials-same-function": [functools.partial(mod.f, 1), functools.partial(mod.f, 2), functools.partial(mod.f, 1.0)],
+        "partials-two-functions": [functools.partial(mod.f, 1), functools.partial(mod.g, 1)],
+        "partials-keyword-bound": [functools.partial(mod.f, k=1), functools.partial(mod.f, k=2)],
+        "methods-of-two-instances": [mod.Obj(1).m, mod.Obj(2).m, mod.Obj("1").m],
+        "callable-instances": [mod.Obj(1), mod.Obj(2)],
+        "function-and-partial": [mod.f, functools.partial(mod.f, 5)],
+    }
+    n = 0
+    for gname, callables in groups.items():
+        for compress in (False, True):
+            for shelve in (False, True):
+                loc = os.path.join(d, "cache")
+                shutil.rmtree(loc, ignore_errors=True)
+                M._FUNCTION_HASHES.clear()
+                mem = joblib.Memory(loc, verbose=0, compress=compress)
+                cached = [mem.cache(c) for c in callables]
+                order = list(range(len(callables))) * 3 + list(reversed(range(len(callables))))
+                for argset in ((5,), (5, 6)):
+                    for i in order:
+                        c = callables[i]
+                        try:
+                            want = c(*argset)
+                        except TypeError:
+                            continue
+                        n += 1
+                        try:
+                            with core.time_limit(60):
+                                got = cached[i].call_and_shelve(*argset).get() if shelve else cached[i](*argset)
+                        except core.Watchdog:
+                            got = "NO-TERMINATION"
+                        except Exception as e:  # noqa
+                            got = "raises %s: %s" % (type(e).__name__, str(e)[:100])
+                        if got != want:
+                            ctx.violation("shared-directory|%s" % gname,
+                                          "%s cached in one directory (compress=%r, shelve=%r): callable #%d called with %r returned %r instead of %r" % (
+                                              gname, compress, shelve, i, argset, got, want),
+                                          {"part": "shared", "group": gname, "compress": compress, "shelve": shelve})
+    shutil.rmtree(d, ignore_errors=True)
+    return n
+
 
 def run(ctx):
     global _N
@@ -246,17 +325,22 @@ def run(ctx):
         nontrivial += res["nontrivial"]
         for v in res["viol"]:
             ctx.violation(*v)
+    nshared = shared_directory(ctx)
+    n += nshared
     ctx.rule = ("every signature with <= %d parameters x {plain function, bound method, functools.partial, async def} x every call "
                 "shape Python accepts x every argument slot varied over %d near-colliding typed values inside one cache directory "
                 "x passes {cold, warm through call_and_shelve().get(), warm in a fresh forked process (every 4th)} x compress; each "
-                "returned value compared with the undecorated function. evaluations = cached calls compared; distinct_nontrivial = "
+                "returned value compared with the undecorated function; plus groups of callables (partials with different bound values, "
+                "partials of two functions, methods / callable instances of objects with different state) cached in ONE directory and "
+                "called alternately with equal arguments. evaluations = cached calls compared; distinct_nontrivial = "
                 "distinct (function, shape, slot, value) cases" % (_N, len(NEAR)))
     ctx.exhaustive = True
     ctx.sample({"kind": "method", "signature": "def f(a, /, b=D, *va, c)", "shape": [2, ["c"]], "slot": ["pos", 0], "values": [repr(v) for v in NEAR[:8]]})
     ctx.assumptions += ["functions are pure functions of their arguments returning a typed rendering of what was bound",
                         "fresh-process pass is a fork with joblib.memory._FUNCTION_HASHES cleared (hash-seed variation is C08's)",
                         "lambdas / closures are outside the domain"]
-    return {"evaluations": n, "distinct_nontrivial": nontrivial, "signatures": len(_SIGS), "kinds": len(memgen.KINDS)}
+    return {"evaluations": n, "distinct_nontrivial": nontrivial, "signatures": len(_SIGS), "kinds": len(memgen.KINDS),
+            "shared_directory_calls": nshared}
 
 
 def replay(data):
